@@ -146,6 +146,9 @@ def judge(case, m):
         blank(pool[int(rng.integers(0, len(pool)))], np.arange(2, n))
     if case.get("cancelled") and case["cancelled"] not in used:
         blank(case["cancelled"], rng.choice(n, size=max(1, n // 3), replace=False))
+    if pat == "whole-column" and numeric_used:
+        # a frame of future observations: one used numeric variable (often the response) is missing on EVERY row
+        blank(numeric_used[int(rng.integers(0, len(numeric_used)))], np.arange(n))
     if pat == "infinities":
         # +inf and -inf are values, not missing ones - also when both occur in one row
         floats = [c for c in numeric_used if str(df[c].dtype) == "float64"]
@@ -177,7 +180,22 @@ def judge(case, m):
     orig = attach.ORIG["design_matrices"]
     if not complete.any():
         # no complete row is left: "the data with those rows removed" is an empty frame, which
-        # design_matrices refuses by itself; nothing to compare
+        # design_matrices refuses by itself; nothing to compare for 'drop' / 'error'. 'pass' keeps every row.
+        if policy == "pass" and case.get("profile") == "plain":
+            m.ev("pass-keeps-rows")
+            try:
+                dmp = formulae.design_matrices(text, df, na_action="pass", extra_namespace=ns)
+                part = dmp.common if dmp.common is not None else dmp.group
+                if part is not None and np.asarray(part.design_matrix).shape[0] != n:
+                    m.violation("pass-keeps-rows", f"no row is complete in {used}: 'pass' kept {np.asarray(part.design_matrix).shape[0]} of {n} rows",
+                                case=case, key="pass:row-count")
+            except ValueError as e:
+                if "missing" in str(e).lower() or "incomplete" in str(e).lower():
+                    m.violation("pass-keeps-rows", f"no row is complete in {used}: 'pass' refused the frame: {e}", case=case, key="pass:refused-all-incomplete")
+                else:
+                    m.note("pass-all-incomplete-raised:ValueError")
+            except Exception as e:
+                m.note("pass-all-incomplete-raised:" + type(e).__name__)
         m.note("no-complete-row-not-judged")
         return
 
@@ -385,7 +403,7 @@ def judge_sequence(case, m):
 def run_shard(i, n, tier, seed, m):
     rng = random.Random(seed * 1000003 + i * 29 + 9)
     ncases = (2400 if tier == "quick" else 30000) // n
-    patterns = ["none", "one-cell", "one-cell", "several", "several", "column-but-two", "only-unused", "infinities"]
+    patterns = ["none", "one-cell", "one-cell", "several", "several", "column-but-two", "only-unused", "infinities", "whole-column"]
     for k in range(ncases):
         profile = "plain" if k % 3 != 2 else "stateful"
         case = D.random_case(rng, profile=profile, hostile=(k % 5 == 0), group_p=0.4, min_rows=4)
